@@ -109,3 +109,22 @@ Definition anchor_fp_bin (op : N) (a b : bytes) : bytes :=
   | Some x, Some y => to_repr (if N.eqb op 0 then fadd x y else if N.eqb op 1 then fsub x y else fmul x y)
   | _, _ => []
   end.
+
+(* GGM histories: e<byte> evaluate, p<byte> puncture, E/P with arbitrary-length input *)
+From StarV Require Import Ggm.
+Inductive gop := GEval (i : bytes) | GPunct (i : bytes).
+Definition gres := (option bytes * option gerr)%type.
+Definition ggm_step (k0 k1 : bytes) (g : gstate bytes) (o : gop) : gstate bytes * gres :=
+  match o with
+  | GEval i => match ggm_eval bytes (strobe_prg KF k0 k1) g i with
+               | inl (Some v) => (g, (Some v, None))
+               | inl None => (g, (None, Some NoPrefixFound))
+               | inr e => (g, (None, Some e))
+               end
+  | GPunct i => let '(g', r) := ggm_puncture bytes (strobe_prg KF k0 k1) g i in (g', (None, r))
+  end.
+Fixpoint ggm_run (k0 k1 : bytes) (g : gstate bytes) (ops : list gop) : gstate bytes * list gres :=
+  match ops with
+  | [] => (g, [])
+  | o :: t => let '(g1, r) := ggm_step k0 k1 g o in let '(g2, rs) := ggm_run k0 k1 g1 t in (g2, r :: rs)
+  end.
